@@ -47,35 +47,118 @@ def verus_cmd(path, fs, externs, rlimit, seed, extra=()):
     return cmd
 
 def run_unit(unit, fs, seed=0, rlimit=None, keep=True, tag=""):
-    """run_unit_once, plus: when the verified text calls a function / method that the unit does not know, and /repo's file of the
-    caller defines it with a body that is one pure expression, the helper is brought into the unit with the contract `ensures r == <its
-    body>` (the strongest one, read off its text) and the run is repeated. A change that moves a predicate into a helper is then
-    verified through the helper instead of ending undecided. Helpers with statements, loops or calls stay outside (undecided as before)."""
+    """run_unit_once, plus the handling of helper functions that the unit does not list. When the verified text calls a function /
+    method that the unit does not know (a change moved part of a function under contract into a new helper), and /repo's file of the
+    caller defines it:
+      1. a helper whose body is one pure expression is brought into the unit with the contract `ensures r == <its body>` (the strongest
+         one, read off its text);
+      2. any other helper without generics / `return` / `?` / recursion — or a pure one whose body Verus does not accept as a spec
+         expression — is inlined into its callers (gen.InlineHelper: the call becomes a block that binds the arguments to the parameter
+         names and evaluates the body), so that its text is verified as part of the caller, against the caller's contract.
+    The same is tried when an anchor of a function under contract is lost and the function calls such a helper (the text the anchor
+    stands for may have moved into it). The run is repeated after each step; what cannot be handled stays undecided as before."""
     import copy
-    added = []
+    from gen import Fn, InlineHelper
+    added, inlined, tried_pure, tried_inline = [], [], set(), set()
     res = None
-    for _round in range(4):
-        res = run_unit_once(unit, fs, seed, rlimit, keep, tag)
+    def with_inline(unit, reqs):
+        unit = copy.copy(unit); items = list(unit.items); done = False
+        for caller, name, impl_of in reqs:
+            key = (caller.file, caller.qual, name)
+            if key in tried_inline: continue
+            tried_inline.add(key)
+            try:
+                edit = InlineHelper(caller.file, name, impl_of)
+            except ExtractError as e:
+                inlined.append(f"not inlined: {e}"); continue
+            for i, it in enumerate(items):
+                if isinstance(it, Fn) and it.mode == "verify" and it.file == caller.file and it.qual == caller.qual:
+                    it2 = copy.copy(it); it2.edits = [edit] + list(it.edits); items[i] = it2
+                    inlined.append(edit); done = True
+        unit.items = items
+        return unit if done else None
+    for _round in range(8):
+        try:
+            res = run_unit_once(unit, fs, seed, rlimit, keep, tag)
+        except ExtractError as e:
+            u2 = with_inline(unit, _unknown_helpers_of(unit, str(e)))
+            if u2 is None: raise
+            unit = u2; continue
         if res["status"] != "undecided" or not res["compile_errors"]:
             break
-        new = _missing_pure_helpers(unit, res)
-        seen_h, uniq = {(a.file, a.qual) for a in added}, []
-        for h in new:
-            if (h.file, h.qual) not in seen_h:
-                seen_h.add((h.file, h.qual)); uniq.append(h)
-        new = uniq
-        if not new:
-            break
-        unit = copy.copy(unit)
-        unit.items = list(unit.items) + new
-        added += new
+        # a pure helper of an earlier round whose contract Verus rejects: inline it instead
+        bad = [h for h in added if any((e.get("fn") or "").split("::")[-1] == h.name for e in res["compile_errors"])]
+        if bad:
+            reqs = []
+            for h in bad:
+                added.remove(h)
+                unit = copy.copy(unit); unit.items = [it for it in unit.items if it is not h]
+                for it in unit.items:
+                    if isinstance(it, Fn) and it.mode == "verify" and it.file == h.file and re.search(r"\b" + re.escape(h.name) + r"\s*\(", _body_text(it)):
+                        reqs.append((it, h.name, h.impl_of))
+            u2 = with_inline(unit, reqs)
+            if u2 is None: break
+            unit = u2; continue
+        new, reqs = _missing_helpers(unit, res, tried_pure)
+        if new:
+            unit = copy.copy(unit); unit.items = list(unit.items) + new; added += new
+            continue
+        u2 = with_inline(unit, reqs)
+        if u2 is None: break
+        unit = u2
+    if res is None:
+        raise ExtractError("no run")
     if added:
         res["auto_helpers"] = [f"{h.file}::{h.qual}: {' '.join(h.contract.split())[:200]}" for h in added]
+    notes = [x.describe() if not isinstance(x, str) else x for x in inlined]
+    if notes:
+        res["inlined_helpers"] = notes
     return res
 
-def _missing_pure_helpers(unit, res):
+def _body_text(fn):
+    from gen import source
+    try:
+        src = source(fn.file); d = src.find_fn(fn.name, fn.impl_of, fn.trait_of, fn.nth)
+        return src.text[d["body_open"]:d["end"]] if d["body_open"] is not None else ""
+    except Exception:
+        return ""
+
+def _known_names(unit):
+    from gen import Fn, Raw
+    names = set()
+    for it in unit.items:
+        if isinstance(it, Fn): names.add(it.name)
+        elif isinstance(it, Raw): names |= set(re.findall(r"\bfn\s+(\w+)", it.text))
+    return names
+
+def _unknown_helpers_of(unit, msg):
+    """a lost anchor in file:fn — the helpers of the same file that this function calls and that the unit does not know"""
     from gen import Fn, source
-    out = []
+    m = re.match(r"([\w/\.]+\.rs):([\w:<>]+?)(?: \(signature\))?: ", msg)
+    if not m: return []
+    file, qual = m.group(1), m.group(2)
+    caller = next((it for it in unit.items if isinstance(it, Fn) and it.mode == "verify" and it.file == file and it.qual == qual), None)
+    if caller is None: return []
+    known = _known_names(unit)
+    src = source(file)
+    body = _body_text(caller)
+    out, seen = [], set()
+    for m in re.finditer(r"(?<![\w:\.])(self\s*\.\s*)?([a-z_]\w*)\s*\(", body):
+        name = m.group(2)
+        if name in known or name in seen: continue
+        seen.add(name)
+        for impl in ([caller.impl_of] if (m.group(1) and caller.impl_of) else [None]):
+            try:
+                src.find_fn(name, impl, None, 0)
+            except Exception:
+                continue
+            out.append((caller, name, impl))
+    return out
+
+def _missing_helpers(unit, res, tried_pure):
+    """(helpers to add with their body as contract, helpers to inline) for the `cannot find function / method` errors of a run"""
+    from gen import Fn, source
+    out, reqs = [], []
     for e in res["compile_errors"]:
         msg = e.get("message") or ""
         m = re.search(r"no method named `(\w+)` found for (?:enum|struct|reference|type) `&?(?:[\w:]*::)?(\w+)", msg)
@@ -102,13 +185,16 @@ def _missing_pure_helpers(unit, res):
             continue
         # one pure expression: no statements, no bindings, no loops, no macros other than matches!
         stripped = re.sub(r"//[^\n]*", "", body)
-        if ";" in stripped or re.search(r"\b(let|for|while|loop|return|unsafe)\b", stripped): continue
-        if re.search(r"\b(?!matches)\w+!\s*[\(\[{]", stripped): continue
         sig = src.text[d["kw"]:d["body_open"]]
-        if "->" not in sig: continue
-        out.append(Fn(caller.file, name, impl_of=impl_of, contract=f"ensures r == ({stripped}),",
-                      note="auto-included helper: its body is one pure expression, which is its contract"))
-    return out
+        pure = not (";" in stripped or re.search(r"\b(let|for|while|loop|return|unsafe)\b", stripped)) and not re.search(r"\b(?!matches)\w+!\s*[\(\[{]", stripped) and "->" in sig
+        if pure and (caller.file, name) not in tried_pure:
+            tried_pure.add((caller.file, name))
+            if not any(h.name == name and h.file == caller.file for h in out):
+                out.append(Fn(caller.file, name, impl_of=impl_of, contract=f"ensures r == ({stripped}),",
+                              note="auto-included helper: its body is one pure expression, which is its contract"))
+        else:
+            reqs.append((caller, name, impl_of))
+    return out, reqs
 
 def run_unit_once(unit, fs, seed=0, rlimit=None, keep=True, tag=""):
     """returns result dict: status in {ok, failed, undecided}, failures[list], functions{}, time…"""
